@@ -107,6 +107,7 @@ type handCfg struct {
 	deck             []string
 	bank             []int64
 	pos              []string // per seat: subset of "dsb"
+	big              bool     // generator stratum: amounts scaled by a large factor
 }
 
 func (c *handCfg) line() string {
